@@ -51,7 +51,7 @@ class A(Adapter):
     serves = {"C01", "C04", "C05", "C07", "C10", "C12"}
     terminate_on_invalid = False
     max_steps = 70
-    ops = ("state", "step", "judge", "instance", "bounds")
+    ops = ("state", "step", "judge", "instance", "bounds", "spec")
 
     def configs(self, tier):
         from jumanji.environments.routing.pac_man import PacMan
@@ -108,6 +108,64 @@ class A(Adapter):
                 st.replace(last_direction=jnp.array(act, jnp.int32)), env.x_size, env.y_size)[:2]))
         paths, acts = self._gm[1](s, jnp.asarray(a))
         return {"paths": _pairs(paths), "actions": [int(x) for x in np.asarray(acts)]}
+
+    # ---- wave 3 (hook of the C12 sweep; PacMan has no C09 sweep): declared specs vs the model's obsSpec, reset timestep,
+    # observation arrays, membership and the invariant SpecInv on implementation states (harness/wave3_routing.py; theorems
+    # pacman_obsSpec_generated, pacman_*_obs_valid, pacman_specInv_invariant, pacman_reset_obs_faithful)
+    def synthetic(self, ctx, cfg, env, runner, rng, drv):
+        import wave3_routing as w3
+
+        w3.check_specs(ctx, self, cfg, env, drv)
+        w3.check_reset_and_obs(ctx, self, cfg, env, runner, rng, drv, 2 if ctx.quick else 5, 10 if ctx.quick else 40,
+                               policies=("masked", "uniform"), extra="spec_inv")
+        self._last_pellet(ctx, cfg, env, runner, rng, drv)
+
+    def _last_pellet(self, ctx, cfg, env, runner, rng, drv):
+        """the termination cause "no pellet left" (theorem pacman_last_iff), which play never reaches in a sweep: a reset state
+        whose pellet list is cut down to one pellet on the cell the player is about to enter (LAST expected) and to two pellets,
+        the second one under the player (MID expected, counter 1); implementation vs the L1 step (observation / timestep / state)"""
+        import jax
+        import jax.numpy as jnp
+        from common import DriverError
+        from envlib import diff_json
+
+        s0, ts0 = runner.reset(jax.random.PRNGKey(int(rng.integers(1 << 31))))
+        mask = np.asarray(ts0.observation.action_mask).astype(bool)
+        legal = np.flatnonzero(mask[:4])
+        if not len(legal):
+            return
+        a = int(legal[0])
+        x, y = int(s0.player_locations.x), int(s0.player_locations.y)
+        dx, dy = [(-1, 0), (0, -1), (1, 0), (0, 1)][a]
+        tx, ty = (x + dx) % int(env.x_size), (y + dy) % int(env.y_size)
+        for n in (1, 2):
+            pl = np.zeros_like(np.asarray(s0.pellet_locations))
+            pl[0] = (ty, tx)                      # (column, row) of the cell the move leads to
+            if n == 2:
+                pl[1] = (y, x)                    # a pellet under the player: not eaten by moving away
+            s = s0.replace(pellet_locations=jnp.asarray(pl, dtype=s0.pellet_locations.dtype),
+                           pellets=jnp.asarray(n, dtype=jnp.asarray(s0.pellets).dtype))
+            act = jnp.asarray(a, jnp.int32)
+            s2, ts2 = runner.step(s, act)
+            q = dict(op="pac_man.step", cfg=cfg.cfg, state=self.ser_state(env, s), action=a, draw=self.draw(env, s, act, s2, ts2))
+            m = drv.batch([q])[0]
+            ctx.evaluations += 1
+            info = {"env": self.name, "config": cfg.cid, "pellets": n, "action": a}
+            if isinstance(m, DriverError):
+                ctx.fail(self.name, "last_pellet", f"observation/timestep check: the model rejects the last-pellet state: {m}", info)
+                continue
+            impl_state, impl_ts = self.ser_state(env, s2), self.ser_ts(env, ts2)
+            d = diff_json({k: m["state"][k] for k in ("pellets", "pellet_locations", "player_locations", "step_count", "dead")},
+                          impl_state, path="state")
+            d += diff_json(m["ts"], impl_ts, path="ts")
+            if d:
+                ctx.fail(self.name, "last_pellet", f"observation/timestep after eating with {n} pellet(s) left: the L1 model predicts a "
+                         f"different outcome at {d[:4]}", info)
+            want = 2 if (n == 1 or int(env.time_limit) <= 1) else 1
+            if m["ts"]["step_type"] != want:
+                ctx.fail(self.name, "last_pellet", f"observation/timestep: model step type {m['ts']['step_type']} with {n} pellet(s) left, "
+                         f"expected {want}", info)
+            ctx.nontrivial.add((self.name, "w3lastpellet", cfg.cid, n))
 
     def reaction_invalid(self, env, s, a, s2, ts):
         """the move was not carried out: the player is where it was"""
